@@ -557,3 +557,86 @@ def op_c04(case):
         else:
             r["compile"] = "malformed:" + cls
     return r
+
+
+def op_c05(case):
+    """xonsh program vs written-out translation (compared without positions) + construct span"""
+    src, ref, mode = case["src"], case["ref"], case["mode"]
+    py = obs_pyparse(ref, mode)
+    im = obs_parse(src, mode)
+    r = {"py_ok": py["ok"], "py_exc": py.get("exc"), "impl_ok": bool(im.get("ok")), "impl_exc": im.get("exc"), "impl_hang": bool(im.get("hang"))}
+    if py["ok"] and im.get("ok"):
+        r["a"] = row_digests(im["rows"])
+        r["b"] = row_digests(py["rows"])
+        if [x[:2] for x in r["a"]] != [x[:2] for x in r["b"]]:
+            r["diff"] = first_diff(rows_nopos(im["rows"]), rows_nopos(py["rows"]))
+        r["spans"] = sorted({(x[4], x[5], x[6], x[7]) for x in im["rows"] if x[4] >= 0})
+        if case.get("want_shape"):
+            tree = P().parse_string(src, mode=mode)
+            r["rows"] = shape_rows(tree)
+    return r
+
+
+# ---------------------------------------------------------------------------------------------
+# C06: projection of a subprocess Call onto word descriptors
+# ---------------------------------------------------------------------------------------------
+def _xattr(node):
+    """'__xonsh__.name' -> name, else None"""
+    if isinstance(node, ast.Attribute) and isinstance(node.value, ast.Name) and node.value.id == "__xonsh__":
+        return node.attr
+    return None
+
+
+def proc_pieces(node) -> list:
+    if isinstance(node, ast.Constant) and isinstance(node.value, str):
+        return ["w:" + node.value]
+    if isinstance(node, ast.Subscript) and _xattr(node.value) == "env":
+        if isinstance(node.slice, ast.Constant):
+            return ["e:" + str(node.slice.value)]
+        return ["e:<expr>"]
+    if isinstance(node, ast.Starred) and isinstance(node.value, ast.Call):
+        f = _xattr(node.value.func)
+        if f == "list_of_strs_or_callables":
+            return ["p"]
+        if f == "subproc_captured_inject":
+            return ["i"]
+    if isinstance(node, ast.Call):
+        f = _xattr(node.func)
+        if f and f.startswith("subproc_"):
+            return ["s:" + f]
+        if f:
+            return ["x:" + f]
+    if isinstance(node, ast.BinOp) and isinstance(node.op, ast.Add):
+        return proc_pieces(node.left) + proc_pieces(node.right)
+    if isinstance(node, ast.Tuple):
+        out = []
+        for e in node.elts:
+            out += proc_pieces(e)
+        return out
+    return ["?" + type(node).__name__]
+
+
+def _merge_words(ps: list) -> list:
+    out = []
+    for p in ps:
+        if out and out[-1].startswith("w:") and p.startswith("w:"):
+            out[-1] += p[2:]
+        else:
+            out.append(p)
+    return out
+
+
+def op_c06(case):
+    src = case["src"]
+    im = obs_parse(src, "eval", want=())
+    r = {"impl_ok": bool(im.get("ok")), "impl_exc": im.get("exc"), "impl_hang": bool(im.get("hang"))}
+    if not r["impl_ok"]:
+        return r
+    tree = P().parse_string(src, mode="eval")
+    call = tree.body
+    r["is_call"] = isinstance(call, ast.Call)
+    if r["is_call"]:
+        r["func"] = _xattr(call.func) or ast.dump(call.func)
+        r["args"] = [_merge_words(proc_pieces(a)) for a in call.args]
+        r["keywords"] = len(call.keywords)
+    return r
